@@ -55,9 +55,7 @@ fn main() {
     }
     let t0 = std::time::Instant::now();
     // `--names wo`: the path universe with names ending in the overlay's marker suffix (any stream)
-    if o.extra.iter().position(|a| a == "--names").and_then(|i| o.extra.get(i + 1)).map(|s| s.as_str()) == Some("wo") {
-        tree_stream::set_universe_variant(1);
-    }
+    tree_stream::select_universe(&o.extra);
     let rep = match stream.as_str() {
         "path" => path_stream::run(&o),
         "tree" => tree_stream::run(&o),
